@@ -157,32 +157,39 @@ theorem wanted_all (rs : List RChunk) : ∀ i, wanted 0 rs i = List.range' i rs.
 
 /-- full iteration (NULL id) on a handle whose iterator is fresh or ran to its end: indices 0, 1, …, n-1, each once,
     then NULL -/
-theorem iter_all_visits_each_once (tab : List RChunk) (g : Byte × Byte × Byte) :
-    iterRun tab (tab.length + 1) (iterStart tab g 0 none) = List.range tab.length := by
+theorem iter_all_visits_each_once (tab : List RChunk) (stale : Nat) :
+    iterRun tab (tab.length + 1) (iterStart tab stale none) = List.range tab.length := by
   have h := iterRun_first tab 0 tab 0 (by simp) (tab.length + 1) (by omega)
-  have e : iterStart tab g 0 none = first 0 tab 0 := by simp [iterStart, first]
+  have e : iterStart tab stale none = first 0 tab 0 := by simp [iterStart, first]
   rw [e, h, wanted_all, List.range_eq_range']
 
 /-- the full statement quantifies over all iterator usage patterns, i.e. over every state the handle's single
-    iterator can be in -/
-def iter_all_full : Prop :=
-  ∀ (tab : List RChunk) (g : Byte × Byte × Byte) (stale : Nat),
-    iterRun tab (tab.length + 1) (iterStart tab g stale none) = List.range tab.length
+    iterator can be in (`stale` = the hash an earlier, unfinished iteration by id left in it) -/
+def iter_all_full (start : List RChunk → Nat → Option Id → Option Iter) : Prop :=
+  ∀ (tab : List RChunk) (stale : Nat),
+    iterRun tab (tab.length + 1) (start tab stale none) = List.range tab.length
 
-/-- an iteration by id abandoned before its end leaves its hash behind; the next full iteration then visits entry 0
-    and the entries of the OLD id only -/
-theorem stale_iterator_skips_chunks : ¬ iter_all_full := by
+/-- full strength, repaired rule (ee77a20): whatever an earlier iteration left behind, a NULL-id iteration visits
+    every entry exactly once, in order -/
+theorem iter_all_any_state : iter_all_full iterStart := fun tab stale => iter_all_visits_each_once tab stale
+
+/-- the rule before the repair: an iteration by id abandoned before its end left its hash behind; the next full
+    iteration then visited entry 0 and the entries of the OLD id only -/
+theorem stale_iterator_old_rule : ¬ iter_all_full iterStartOld := by
   intro h
-  have := h [⟨⟨97, 97, 97, 97⟩, 8, 0, []⟩, ⟨⟨98, 98, 98, 98⟩, 16, 0, []⟩, ⟨⟨97, 97, 97, 97⟩, 24, 0, []⟩] (0, 0, 0)
+  have := h [⟨⟨97, 97, 97, 97⟩, 8, 0, []⟩, ⟨⟨98, 98, 98, 98⟩, 16, 0, []⟩, ⟨⟨97, 97, 97, 97⟩, 24, 0, []⟩]
     (mk4 "aaaa").u32
   exact absurd this (by decide)
 
+example : iterRun [⟨⟨97, 97, 97, 97⟩, 8, 0, []⟩, ⟨⟨98, 98, 98, 98⟩, 16, 0, []⟩] 3
+    (iterStart [⟨⟨97, 97, 97, 97⟩, 8, 0, []⟩, ⟨⟨98, 98, 98, 98⟩, 16, 0, []⟩] (mk4 "aaaa").u32 none) = [0, 1] := by decide
+
 /-- iteration by id: exactly the entries whose marker hashes like the id, in file order, then NULL -/
-theorem iter_by_id (tab : List RChunk) (g : Byte × Byte × Byte) (id : Id) (h0 : idHash g id ≠ 0) :
-    ∀ stale, iterRun tab (tab.length + 1) (iterStart tab g stale (some id)) = wanted (idHash g id) tab 0 := by
+theorem iter_by_id (tab : List RChunk) (id : Id) (h0 : idHash id ≠ 0) :
+    ∀ stale, iterRun tab (tab.length + 1) (iterStart tab stale (some id)) = wanted (idHash id) tab 0 := by
   intro stale
-  have h := iterRun_first tab (idHash g id) tab 0 (by simp) (tab.length + 1) (by omega)
-  have e : iterStart tab g stale (some id) = first (idHash g id) tab 0 := by simp [iterStart, first, h0]
+  have h := iterRun_first tab (idHash id) tab 0 (by simp) (tab.length + 1) (by omega)
+  have e : iterStart tab stale (some id) = first (idHash id) tab 0 := by simp [iterStart, first, h0]
   rw [e, h]
 
 /-- the visited indices are strictly increasing (so no entry is visited twice) and all ≥ the start -/
@@ -338,112 +345,207 @@ theorem hdr_not_always_fits : ¬ hdr_always_fits_full := by
 /-- several chunks totalling about 100 KiB are refused as well although each is small -/
 example : hdrFits .wav 36 [30000, 30000] = false ∧ hdrFits .wav 36 [20000, 20000] = true := by decide
 
-/-! ## the round trip, for every list of chunks the cache accepts -/
+/-! ## the round trip, for EVERY id the repaired `sf_set_chunk` accepts -/
 
 structure Req where
   id : Id
   payload : List Byte
 
-def toW (g : Byte × Byte × Byte) (r : Req) : WChunk := WChunk.ofInfo g r.id r.payload
+def toW (r : Req) : WChunk := WChunk.ofInfo r.id r.payload
 
-/-- explicit `fits` predicate: legal four-character ids, payloads below 4 GiB, and the header cache keeps everything -/
+/-- explicit `fits` predicate: ids `sf_set_chunk` accepts before the audio (any length; the pass-through names LIST,
+    INFO, PAD / APPL / free are outside the read-table model), payloads below 4 GiB, and the header cache keeps everything -/
 def fits (c : Container) (pre : Nat) (l : List Req) : Prop :=
   (∀ r ∈ l, legalId c r.id = true ∧ r.payload.length ≤ 4294967292) ∧
   hdrFits c pre (l.map fun r => pad4 r.payload.length) = true
 
-/-- what the read table must hold: the id, the payload start, the size padded to 4, payload followed by zeros -/
-def expected (c : Container) (g : Byte × Byte × Byte) : List Req → Nat → List RChunk
+/-- what the read table must hold: the id padded with spaces to four characters, the payload start, the size padded
+    to 4, payload followed by zeros -/
+def expected (c : Container) : List Req → Nat → List RChunk
   | [], _ => []
   | r :: rs, pos =>
-    ⟨mark32 g r.id, pos + hdrLen c, pad4 r.payload.length, r.payload ++ zeros (pad4 r.payload.length - r.payload.length)⟩
-      :: expected c g rs (pos + hdrLen c + pad4 r.payload.length)
+    ⟨markerOf r.id, pos + hdrLen c, pad4 r.payload.length, r.payload ++ zeros (pad4 r.payload.length - r.payload.length)⟩
+      :: expected c rs (pos + hdrLen c + pad4 r.payload.length)
 
-theorem legalId_mark (c : Container) (g : Byte × Byte × Byte) (id : Id) (h : legalId c id = true) :
-    legalMark c (mark32 g id) = true ∧ (mark32 g id).bytes = id := by
-  match id, h with
-  | [a, b, cc, d], h =>
-    simp only [legalId, Bool.and_eq_true, bne_iff_ne, ne_eq] at h
-    obtain ⟨⟨⟨⟨ha, hb⟩, hc⟩, hd⟩, hm⟩ := h
-    have : cstr [a, b, cc, d] = [a, b, cc, d] := by simp [cstr, List.takeWhile, ha, hb, hc, hd]
-    simp [mark32, this, hm, Mark.bytes]
+/-- no byte of the C string is NUL -/
+theorem cstr_ne_zero : ∀ (id : Id), ∀ b ∈ cstr id, b ≠ 0
+  | [], b, hb => by simp [cstr] at hb
+  | x :: xs, b, hb => by
+    unfold cstr at hb
+    by_cases hx : x = 0
+    · simp [List.takeWhile, hx] at hb
+    · simp only [List.takeWhile, ne_eq, hx, not_false_eq_true, decide_true, List.mem_cons] at hb
+      rcases hb with rfl | hb
+      · exact hx
+      · exact cstr_ne_zero xs b hb
 
-theorem toW_ok (c : Container) (g : Byte × Byte × Byte) (r : Req)
-    (h : legalId c r.id = true ∧ r.payload.length ≤ 4294967292) : okChunk c (toW g r) := by
-  refine ⟨(legalId_mark c g r.id h.1).1, ?_, ?_, ?_⟩
+/-- the first byte of a marker is never NUL: it is the id's first character or a space -/
+theorem markerOf_a_ne_zero (id : Id) : (markerOf id).a ≠ 0 := by
+  have h := cstr_ne_zero id
+  unfold markerOf
+  split
+  next a b c d _ heq => exact h a (by simp [heq])
+  next a b c heq => exact h a (by simp [heq])
+  next a b heq => exact h a (by simp [heq])
+  next a heq => exact h a (by simp [heq])
+  next => decide
+
+theorem u32_ne_zero (m : Mark) (h : m.a ≠ 0) : m.u32 ≠ 0 := by
+  intro h0
+  apply h
+  unfold Mark.u32 at h0
+  exact Nat.eq_zero_of_add_eq_zero_right (Nat.eq_zero_of_add_eq_zero_right (Nat.eq_zero_of_add_eq_zero_right h0))
+
+/-- every marker a container's parser interprets, and every trailing marker, is either refused by `sf_set_chunk`
+    or one of the pass-through names -/
+theorem interpreted_covered (c : Container) (m : Mark) (h : m ∈ interpreted c ∨ m ∈ trailer c) :
+    m ∈ reserved c ∨ m ∈ passThrough c := by
+  have key : ∀ c : Container, ((interpreted c ++ trailer c).all fun m => (reserved c).contains m || (passThrough c).contains m) = true := by
+    intro c; cases c <;> decide
+  have hm : m ∈ interpreted c ++ trailer c := by simpa using h
+  have := List.all_eq_true.1 (key c) m hm
+  simpa using this
+
+/-- an id the repaired `sf_set_chunk` accepts (pass-through names aside) gives a marker the parser's default branch
+    stores and skips -/
+theorem legalId_mark (c : Container) (id : Id) (h : legalId c id = true) : legalMark c (markerOf id) = true := by
+  simp only [legalId, accepts, Bool.and_eq_true, Bool.not_eq_true', Bool.or_eq_true, beq_iff_eq, Bool.not_false] at h
+  obtain ⟨⟨⟨_, hp⟩, hr⟩, hpt⟩ := h
+  have hr' : ¬ markerOf id ∈ reserved c := by simpa using hr
+  have hpt' : ¬ markerOf id ∈ passThrough c := by simpa using hpt
+  have hcov := interpreted_covered c (markerOf id)
+  have hint : ¬ markerOf id ∈ interpreted c := fun hh => (hcov (Or.inl hh)).elim hr' hpt'
+  have htr : ¬ markerOf id ∈ trailer c := fun hh => (hcov (Or.inr hh)).elim hr' hpt'
+  have hz := u32_ne_zero _ (markerOf_a_ne_zero id)
+  have hacc : markAccepted c (markerOf id) = true := by
+    rcases hp with hc | hp
+    · subst hc; rfl
+    · cases c <;> simp [markAccepted, printableMark] at hp ⊢ <;> exact hp
+  simp [legalMark, hz, hacc, hint, htr, tagLike]
+
+theorem toW_ok (c : Container) (r : Req)
+    (h : legalId c r.id = true ∧ r.payload.length ≤ 4294967292) : okChunk c (toW r) := by
+  refine ⟨legalId_mark c r.id h.1, ?_, ?_, ?_⟩
   · simp [toW, WChunk.ofInfo, zeros, pad4]; omega
   · simp [toW, WChunk.ofInfo, pad4]; omega
   · simp [toW, WChunk.ofInfo, pad4]
 
-theorem entries_expected (c : Container) (g : Byte × Byte × Byte) : ∀ (l : List Req) (pos : Nat),
-    entries c (l.map (toW g)) pos = expected c g l pos := by
+theorem entries_expected (c : Container) : ∀ (l : List Req) (pos : Nat),
+    entries c (l.map toW) pos = expected c l pos := by
   intro l
   induction l with
   | nil => intro pos; rfl
   | cons r rs ih => intro pos; simp [entries, expected, toW, WChunk.ofInfo, ih]
 
-/-- **chunks_roundtrip**: for every list of (id, payload) satisfying `fits`, whatever surrounds the custom
-    chunks in the file (`pre` bytes before, `tail` after), the parser's read table gets exactly one entry per
-    chunk, in order, with the size padded to 4 and the payload followed by zero padding; then the walk goes
-    on with the container's own trailing chunks. -/
-theorem chunks_roundtrip (c : Container) (g : Byte × Byte × Byte) (pre : Nat) (l : List Req) (hf : fits c pre l)
+/-- **chunks_roundtrip** (full strength in the ids): for every list of (id, payload) whose ids the repaired
+    `sf_set_chunk` accepts — of ANY length: shorter ones come back padded with spaces, longer ones cut to four
+    characters — and which the header cache holds, whatever surrounds the custom chunks in the file (`pre` bytes
+    before, `tail` after), the parser's read table gets exactly one entry per chunk, in order, with the size padded
+    to 4 and the payload followed by zero padding; then the walk goes on with the container's own trailing chunks. -/
+theorem chunks_roundtrip (c : Container) (pre : Nat) (l : List Req) (hf : fits c pre l)
     (fuel : Nat) (tail : List Byte) :
-    let region := customRegion c pre (l.map (toW g))
+    let region := customRegion c pre (l.map toW)
     (parse c (l.length + fuel) pre (region ++ tail)).1
-      = expected c g l pre ++ (parse c fuel (pre + region.length) tail).1 := by
+      = expected c l pre ++ (parse c fuel (pre + region.length) tail).1 := by
   intro region
-  have hlens : (l.map (toW g)).map (·.len) = l.map fun r => pad4 r.payload.length := by
+  have hlens : (l.map toW).map (·.len) = l.map fun r => pad4 r.payload.length := by
     simp [toW, WChunk.ofInfo, Function.comp_def]
-  have hreg : region = serAll c (l.map (toW g)) := region_of_fits c pre _ (by rw [hlens]; exact hf.2)
-  have hok : ∀ w ∈ l.map (toW g), okChunk c w := by
+  have hreg : region = serAll c (l.map toW) := region_of_fits c pre _ (by rw [hlens]; exact hf.2)
+  have hok : ∀ w ∈ l.map toW, okChunk c w := by
     intro w hw
     obtain ⟨r, hr, rfl⟩ := List.mem_map.1 hw
-    exact toW_ok c g r (hf.1 r hr)
-  have := parse_serAll c (l.map (toW g)) hok fuel pre tail
+    exact toW_ok c r (hf.1 r hr)
+  have := parse_serAll c (l.map toW) hok fuel pre tail
   rw [List.length_map] at this
   rw [hreg, this, entries_expected]
 
-/-- non-vacuity + concrete instance: two chunks (one with an odd payload, a duplicate id) in a WAV header -/
+/-- non-vacuity + concrete instance: a four-character id with an odd payload, a duplicate id, a THREE-character
+    id and a ONE-character id in a WAV header -/
 example :
-    fits .wav 36 [⟨[97, 98, 99, 100], [1, 2, 3, 4, 5]⟩, ⟨[97, 98, 99, 100], []⟩] ∧
-    (parse .wav 5 36 (customRegion .wav 36 ([⟨[97, 98, 99, 100], [1, 2, 3, 4, 5]⟩, ⟨[97, 98, 99, 100], []⟩].map (toW (0, 0, 0)))
-        ++ [100, 97, 116, 97, 0, 0, 0, 0])).1
-      = [⟨⟨97, 98, 99, 100⟩, 44, 8, [1, 2, 3, 4, 5, 0, 0, 0]⟩, ⟨⟨97, 98, 99, 100⟩, 60, 0, []⟩] := by
+    fits .wav 36 [⟨[97, 98, 99, 100], [1, 2, 3, 4, 5]⟩, ⟨[97, 98, 99, 100], []⟩, ⟨[97, 98, 99], [7]⟩, ⟨[120], []⟩] ∧
+    (parse .wav 7 36 (customRegion .wav 36 ([⟨[97, 98, 99, 100], [1, 2, 3, 4, 5]⟩, ⟨[97, 98, 99, 100], []⟩, ⟨[97, 98, 99], [7]⟩,
+        ⟨[120], []⟩].map toW) ++ [100, 97, 116, 97, 0, 0, 0, 0])).1
+      = [⟨⟨97, 98, 99, 100⟩, 44, 8, [1, 2, 3, 4, 5, 0, 0, 0]⟩, ⟨⟨97, 98, 99, 100⟩, 60, 0, []⟩,
+         ⟨⟨97, 98, 99, 32⟩, 68, 4, [7, 0, 0, 0]⟩, ⟨⟨120, 32, 32, 32⟩, 80, 0, []⟩] := by
   refine ⟨⟨by decide, by decide⟩, by decide⟩
 
-/-! ## identifiers outside `legalId`: what the code does with them (known-finding classes) -/
+/-- a chunk stored under a short id is found again by that same short id: storing and looking up use one rule -/
+theorem lookup_uses_stored_marker (id : Id) (h : (cstr id).length ≤ 4) (payload : List Byte) :
+    idHash id = (WChunk.ofInfo id payload).mark.u32 := by
+  simp [idHash, WChunk.ofInfo]; omega
 
-/-- the statement's "arbitrary identifiers … 1–4 character ids incl. reserved ids": every such id comes back -/
-def ids_roundtrip_full : Prop :=
-  ∀ (c : Container) (g : Byte × Byte × Byte) (id : Id), 1 ≤ id.length → id.length ≤ 4 → (∀ b ∈ id, b ≠ 0) →
-    (parse c 1 0 (ser c (WChunk.ofInfo g id []))).1 = [⟨mark32 g id, hdrLen c, 0, []⟩]
+/-! ## what `sf_set_chunk` refuses, and what the rules before the repairs did with those ids -/
 
+/-- the statement's "arbitrary identifiers … 1–4 character ids incl. reserved ids": `store g id` being the chunk the
+    write table holds, every such id comes back -/
+def ids_roundtrip_full (store : Id → WChunk) : Prop :=
+  ∀ (c : Container) (id : Id), 1 ≤ id.length → id.length ≤ 4 → (∀ b ∈ id, b ≠ 0) →
+    (parse c 1 0 (ser c (store id))).1 = [⟨(store id).mark, hdrLen c, 0, []⟩]
 
-/-- a three-character id is stored as "abc\0" and WAV, RF64 and AIFF stop parsing there; so do ids with an
-    unprintable byte; 'data' in a WAV file is taken for the audio chunk -/
-theorem ids_outside_legal_break_reopen :
-    (parse .wav 1 0 (ser .wav (WChunk.ofInfo (0, 0, 0) [97, 98, 99] []))).2.1 = .rejected ∧
-    (parse .aiff 1 0 (ser .aiff (WChunk.ofInfo (0, 0, 0) [97, 98, 99] []))).2.1 = .rejected ∧
-    (parse .rf64 1 0 (ser .rf64 (WChunk.ofInfo (0, 0, 0) [65, 65, 65, 0xa4] []))).2.1 = .rejected ∧
-    (parse .wav 1 0 (ser .wav (WChunk.ofInfo (0, 0, 0) [100, 97, 116, 97] []))).2.1 = .trailer ∧
-    (parse .aiff 1 0 (ser .aiff (WChunk.ofInfo (0, 0, 0) [67, 79, 77, 77] []))).2.1 = .interpreted := by decide
+/-- what is documented instead (sndfile.h: "will fail for format specific reserved chunks") and now implemented: every
+    1–4 character id either is refused — because the container reserves it or cannot represent it — or round-trips
+    (the pass-through names LIST / INFO / PAD, APPL, free are accepted and left to the container's reader) -/
+theorem ids_refused_or_roundtrip (c : Container) (id : Id) :
+    accepts c false id = false ∨ markerOf id ∈ passThrough c ∨
+    (parse c 1 0 (ser c (WChunk.ofInfo id []))).1 = [⟨markerOf id, hdrLen c, 0, []⟩] := by
+  by_cases ha : accepts c false id = true
+  · by_cases hp : markerOf id ∈ passThrough c
+    · exact Or.inr (Or.inl hp)
+    · refine Or.inr (Or.inr ?_)
+      have hl : legalId c id = true := by simp [legalId, ha, hp]
+      have hw : okChunk c (WChunk.ofInfo id []) := toW_ok c ⟨id, []⟩ ⟨hl, by simp⟩
+      have := parse_step c (WChunk.ofInfo id []) hw 0 0 []
+      rw [List.append_nil] at this
+      rw [this]
+      simp [WChunk.ofInfo, parse, pad4, zeros]
+  · exact Or.inl (by simpa using ha)
 
-/-- whatever the stack held, an id shorter than four characters is never accepted by the WAV, RF64, AIFF parsers -/
-theorem short_id_rejected (c : Container) (hc : c ≠ .caf) (g : Byte × Byte × Byte) (id : Id)
-    (h : KF.shortId id = true) : markAccepted c (mark32 g id) = false := by
+/-- refusals: reserved markers in every container; unprintable markers in WAV, RF64, AIFF; anything once audio has
+    been written -/
+theorem set_chunk_refusals (c : Container) (id : Id) :
+    (markerOf id ∈ reserved c → ∀ w, accepts c w id = false) ∧
+    (c ≠ .caf → printableMark (markerOf id) = false → ∀ w, accepts c w id = false) ∧
+    accepts c true id = false := by
+  refine ⟨fun h w => by simp [accepts, h], fun hc hp w => ?_, by simp [accepts]⟩
+  cases c <;> first | exact absurd rfl hc | simp [accepts, hp]
+
+example : accepts .wav false [100, 97, 116, 97] = false ∧ accepts .aiff false [67, 79, 77, 77] = false ∧
+    accepts .rf64 false [65, 65, 65, 0xa4] = false ∧ accepts .caf false [65, 65, 65, 0xa4] = true ∧
+    accepts .wav false [76, 73, 83, 84] = true ∧ accepts .caf false [102, 114, 101, 101] = true ∧
+    accepts .wav false [97, 98] = true ∧ accepts .wav true [97, 98, 99, 100] = false := by decide
+
+/-- THE RULES BEFORE THE REPAIRS (C13-short-id, C13-unprintable-id, C13-reserved-id): every id was stored;
+    a three-character id was stored as "abc\0" and WAV, RF64 and AIFF stop parsing there; so do ids with an
+    unprintable byte; 'data' in a WAV file is taken for the audio chunk, 'COMM' in an AIFF file for the real one -/
+theorem ids_outside_legal_old_rule :
+    (parse .wav 1 0 (ser .wav (WChunk.ofInfoOld (0, 0, 0) [97, 98, 99] []))).2.1 = .rejected ∧
+    (parse .aiff 1 0 (ser .aiff (WChunk.ofInfoOld (0, 0, 0) [97, 98, 99] []))).2.1 = .rejected ∧
+    (parse .rf64 1 0 (ser .rf64 (WChunk.ofInfoOld (0, 0, 0) [65, 65, 65, 0xa4] []))).2.1 = .rejected ∧
+    (parse .wav 1 0 (ser .wav (WChunk.ofInfoOld (0, 0, 0) [100, 97, 116, 97] []))).2.1 = .trailer ∧
+    (parse .aiff 1 0 (ser .aiff (WChunk.ofInfoOld (0, 0, 0) [67, 79, 77, 77] []))).2.1 = .interpreted := by decide
+
+/-- old rule: whatever the stack held, an id shorter than four characters was never accepted by the WAV, RF64, AIFF parsers -/
+theorem short_id_old_rule (c : Container) (hc : c ≠ .caf) (g : Byte × Byte × Byte) (id : Id)
+    (h : KF.shortId id = true) : markAccepted c (mark32Old g id) = false := by
   unfold KF.shortId at h
-  unfold mark32
+  unfold mark32Old
   cases c <;> first | exact absurd rfl hc | skip
   all_goals
     split <;> simp_all [markAccepted, isPrint] <;> omega
 
-theorem ids_do_not_all_roundtrip : ¬ ids_roundtrip_full := by
+/-- old rule: the full statement was false (witness: "abc" in a WAV file) -/
+theorem ids_roundtrip_old_rule : ¬ ids_roundtrip_full (fun id => WChunk.ofInfoOld (0, 0, 0) id []) := by
   intro h
-  have := h .wav (0, 0, 0) [97, 98, 99] (by decide) (by decide) (by decide)
+  have := h .wav [97, 98, 99] (by decide) (by decide) (by decide)
   exact absurd this (by decide)
 
-/-- CAF takes any four bytes that are not one of its own markers -/
+/-- old rule (WAV reader): a chunk `TAG?` was taken for an ID3v1 trailer although it stood in front of the audio -/
+theorem tag_trailer_old_rule : tagLikeOld .wav (mk4 "TAGx") = true ∧ legalIdOld .wav [84, 65, 71, 120] = false ∧
+    legalId .wav [84, 65, 71, 120] = true := by decide
+
+/-- CAF takes any four bytes that are not one of its own markers; WAV wants printable ones -/
 example : legalId .caf [65, 65, 65, 0xa4] = true ∧ legalId .wav [65, 65, 65, 0xa4] = false ∧
-    legalId .wav [120, 121, 122, 32] = true ∧ legalId .wav [100, 97, 116, 97] = false := by decide
+    legalId .wav [120, 121, 122, 32] = true ∧ legalId .wav [100, 97, 116, 97] = false ∧ legalId .wav [120] = true := by decide
 
 /-! ## sf_get_chunk_data copies at most datalen bytes -/
 
@@ -463,22 +565,24 @@ theorem get_data_bounded (r : RChunk) (buf : List Byte) (hd : r.data.length = r.
 example : getData ⟨⟨97, 98, 99, 100⟩, 44, 8, [1, 2, 3, 4, 5, 0, 0, 0]⟩ [9, 9, 9] = [1, 2, 3] ∧
     getData ⟨⟨97, 98, 99, 100⟩, 44, 4, [1, 2, 3, 4]⟩ [9, 9, 9, 9, 9, 9] = [1, 2, 3, 4, 9, 9] := by decide
 
-/-- through SF_VIRTUAL_IO a zero-byte read divides by zero (`psf_fread`: `… / bytes`) -/
-theorem zero_length_read_traps_on_vio (r : RChunk) (h : r.len = 0) (datalen : Nat) :
-    getDataTraps true r datalen = true ∧ getDataTraps false r datalen = false := by
-  simp [getDataTraps, h]
+/-- repaired rule (c8a9c60): no route traps, whatever the sizes; a zero-length read leaves the buffer alone -/
+theorem zero_length_read_safe (vio : Bool) (r : RChunk) (datalen : Nat) (buf : List Byte) (h : r.len = 0) :
+    getDataTraps vio r datalen = false ∧ getData r buf = buf := by
+  simp [getDataTraps, getData, h]
+
+/-- old rule: through SF_VIRTUAL_IO a zero-byte read divided by zero (`psf_fread`: `… / bytes`) -/
+theorem zero_length_read_old_rule (r : RChunk) (h : r.len = 0) (datalen : Nat) :
+    getDataTrapsOld true r datalen = true ∧ getDataTrapsOld false r datalen = false := by
+  simp [getDataTrapsOld, h]
 
 /-! ## a chunk set after audio was written -/
 
-/-- full statement: re-writing the header at close leaves the stored audio alone whenever late chunks were added -/
-def late_set_harmless_full : Prop :=
-  ∀ hdrOld hdrNew audio : List Byte, hdrOld.length ≤ hdrNew.length → audioAfter hdrOld hdrNew audio = audio
+/-- full statement: whatever a late `sf_set_chunk` does, the header written at close has the length of the one the
+    audio was written behind, so the stored audio is what a reader finds -/
+def late_set_harmless_full (hdrAtClose : List Byte → List Byte → List Byte) : Prop :=
+  ∀ hdrOld lateChunk audio : List Byte, audioAfter hdrOld (hdrAtClose hdrOld lateChunk) audio = audio
 
-theorem late_set_not_harmless : ¬ late_set_harmless_full := by
-  intro h
-  exact absurd (h [1] [1, 2] [7] (by decide)) (by decide)
-
-/-- what does hold: if the header did not grow (no late chunk, or CAF's `free` chunk absorbed it) the audio is
+/-- if the header did not change length (no late chunk, or CAF's `free` chunk absorbed it) the audio is
     byte-for-byte what was written -/
 theorem late_set_harmless_partial (hdrOld hdrNew audio : List Byte) (h : hdrNew.length = hdrOld.length) :
     audioAfter hdrOld hdrNew audio = audio := by
@@ -487,7 +591,35 @@ theorem late_set_harmless_partial (hdrOld hdrNew audio : List Byte) (h : hdrNew.
     List.drop_append_of_le_length (by omega), List.drop_of_length_le (by omega)]
   simp
 
-/-- WAV, RF64, AIFF: any late chunk is in the class; CAF: a small one is absorbed by the `free` chunk -/
+/-- repaired rule (7d7b1a3): once audio has been written `sf_set_chunk` is refused and changes nothing on the handle:
+    the write table, hence the header assembled at close, is the one from before -/
+theorem late_set_refused (h : WHandle) (id : Id) (payload : List Byte) :
+    h.write.setChunk id payload = (h.write, false) := by
+  simp [WHandle.setChunk, WHandle.write, accepts]
+
+/-- full strength: the late chunk never reaches the header, the audio is untouched -/
+theorem late_set_harmless : late_set_harmless_full (fun hdrOld _ => hdrOld) :=
+  fun hdrOld _ audio => late_set_harmless_partial hdrOld hdrOld audio rfl
+
+/-- old rule: the late chunk was accepted and the longer header written over the start of the audio -/
+theorem late_set_old_rule : ¬ late_set_harmless_full (fun hdrOld late => hdrOld ++ late) := by
+  intro h
+  exact absurd (h [1] [2] [7]) (by decide)
+
+/-- an accepted call appends exactly one entry and keeps the table invariant; a refused one changes nothing -/
+theorem set_chunk_step (h : WHandle) (id : Id) (payload : List Byte) (hok : h.tab.ok) :
+    ((h.setChunk id payload).2 = true → (h.setChunk id payload).1.chunks = h.chunks ++ [WChunk.ofInfo id payload] ∧
+        (h.setChunk id payload).1.tab.ok) ∧
+    ((h.setChunk id payload).2 = false → (h.setChunk id payload).1 = h) := by
+  unfold WHandle.setChunk
+  split <;> simp [save_ok _ hok]
+
+example : ((WHandle.init .wav).setChunk [97, 98] [1]).1.chunks = [⟨⟨97, 98, 32, 32⟩, 4, [1, 0, 0, 0]⟩] ∧
+    ((WHandle.init .wav).setChunk [100, 97, 116, 97] [1]).2 = false ∧
+    ((WHandle.init .wav).write.setChunk [97, 98, 99, 100] [1]).2 = false := by decide
+
+/-- the old class predicate of the late-set finding, kept for the record: WAV, RF64, AIFF: any late chunk grew the
+    header; CAF: a small one was absorbed by the `free` chunk -/
 example : KF.lateGrow .wav 36 12 12 = true ∧ KF.lateGrow .aiff 38 0 8 = true ∧ KF.lateGrow .caf 52 16 16 = false ∧
     KF.lateGrow .caf 52 16 4096 = true := by decide
 
